@@ -31,6 +31,31 @@ func runFamQ(c *Ctx) {
 	if c.wants("C20", "C23") {
 		famqCursor(c)
 	}
+	if c.wants("C21", "C22") {
+		famqComponents(c)
+	}
+}
+
+func famqComponents(c *Ctx) {
+	sh := c.newShard("qcomp", runnerQ, "caseQ", "mismatches", "violations")
+	sh.limit = 400
+	if c.wants("C21") {
+		for i := 0; i < c.pick(400, 8000); i++ {
+			term, desc, key, nontrivial := runPoolScenario(c)
+			if term == "" {
+				continue
+			}
+			sh.add(c, term, desc)
+			c.count([]string{"C21"}, "pool:"+key, nontrivial, desc)
+		}
+	}
+	if c.wants("C22", "C21") {
+		for i := 0; i < c.pick(400, 8000); i++ {
+			term, desc, key, nontrivial := runSlotScenario(c)
+			sh.add(c, term, desc)
+			c.count([]string{"C22", "C21"}, "slot:"+key, nontrivial, desc)
+		}
+	}
 }
 
 func famqCursor(c *Ctx) {
